@@ -73,7 +73,7 @@ def embedded_run(case, base_files=()):
 
 
 def run(rep, model, tier, seed, broken=()):
-    n = 40 if tier == "quick" else 1000
+    n = 60 if tier == "quick" else 1000
     nsub = 6 if tier == "quick" else 80
     rng = core.rng_for(seed, "C17")
     rep.coverage["rule"] = ("generated trees and single files; base run compared with the model, then re-run: twice in "
